@@ -12,7 +12,7 @@ SPEC = {
              "runBridgeLifecycle) over memory, Redis (miniredis), the tiered store with and without shared Redis, and two "
              "value-shape doubles; every result is compared with the model and judged by the theorem's predicate. Streams: "
              "field fidelity (unicode, control characters, empty, 64 KiB strings, integers at the 2^53 and int64 boundaries), "
-             "id families (three ids alive together on three nodes that share a prefix and differ at one byte: lengths 1..4096, first byte / bytes 100-130 / last byte, separators, the key prefixes themselves, case / trailing NUL / unicode normal forms; the same as node ids), forwarding (a target arrives on a node: Lookup + the real TunnelConnectionManager.CreateDedicatedConnection wired to RoutingTable.GetNodeAddress, dialling four live TCP endpoints; source nodes re-register at other endpoints between tunnels while the old endpoint keeps accepting, several tunnels per forwarding node, missing / empty / expired addresses), every event sequence up to length 3 (thorough: 4) over an 8 (10) letter alphabet per backend, random "
+             "id families (three ids alive together on three nodes that share a prefix and differ at one byte: lengths 1..4096, first byte / bytes 100-130 / last byte, separators, the key prefixes themselves, case / trailing NUL / unicode normal forms; the same as node ids), forwarding (a target arrives on a node: Lookup, then the REAL SessionManager.handleCrossNodeTargetConnection -> lookupTunnelRouting -> processCrossNodeForward -> handleLocalBridgeWait | forwardToSourceNode -> TunnelConnectionManager.CreateDedicatedConnection wired to RoutingTable.GetNodeAddress; four live TCP endpoints report which of them received the TargetReady frame; source nodes re-register at other endpoints between tunnels while the old endpoint keeps accepting, several tunnels per forwarding node, missing / empty / expired addresses), the polling lookup (real lookupTunnelRouting behind a gated store: registrations, removals, lapses, restarts between two of its polls), crash-restarts of nodes over the same storage, lookup results scribbled over by the caller, every event sequence up to length 3 (thorough: 4) over an 8 (10) letter alphabet per backend, random "
              "histories with exact Redis-clock boundaries, real-time histories with 300/400 ms ttls probed at <= 0.5 ttl or >= 1.6 ttl; non-trivial = at "
              "least two events; distinct = distinct case strings"),
     "trusted_base": [
@@ -24,7 +24,9 @@ SPEC = {
         "differential harness /verif/harness/c09 (real sleeps for the nodes' clock, miniredis FastForward for the Redis clock)",
     ],
     "assumptions": [
-        "dialling a registered, live cross-node endpoint succeeds; the harness ends every forwarded tunnel (CloseTunnel), so the manager's per-tunnel connection map is empty between forwards",
+        "dialling a registered, live cross-node endpoint succeeds; every forwarded tunnel ends (endpoint closes, the forwarding goroutine drops the per-tunnel connection) before the next event",
+        "a restart is a crash (no cleanup runs); on a tiered store without shared cache a restart loses the records themselves (excluded)",
+        "a tunnel whose record names the forwarding node itself but has no bridge there is reported as localwait without running the 5 s wait of handleLocalBridgeWait",
         "strings are valid UTF-8 (json.Marshal replaces other bytes by U+FFFD; observed as excluded-point cases, not judged)",
         "integers fit int64; when a backend returns map[string]interface{} they must be exactly representable as float64 (|n| <= 2^53)",
         "a tiered store without shared cache is a single-node deployment (records live in the node's own memory)",
